@@ -5,7 +5,7 @@ from pyvc.values import T
 from spec.avm_axioms import ev, gsize, gidx
 from spec.ghost import has_int_lit, int_lit
 import contracts.helpers  # noqa: F401
-from contracts.fee_field import cmp_sem, SIXOPS, _known_ins
+from contracts.fee_field import cmp_sem, SIXOPS, _known_ins, _arg
 
 F = "tealer/analyses/dataflow/transaction_context/int_fields.py::GroupIndices."
 R16 = list(range(0, 18))
@@ -25,7 +25,7 @@ must_fail(c, "canary", lambda comparison_ins, compared_int, universal_set, resul
 
 
 def _direct(sv, pos, gcls, fcls):
-    a0, a1 = sv.args[0], sv.args[1]
+    a0, a1 = _arg(sv, 0), _arg(sv, 1)
     fa, ca = (a0, a1) if pos == 0 else (a1, a0)
     fi_, ci_ = _known_ins(fa), _known_ins(ca)
     return And(IsInstance(sv.instruction, SIXOPS), IsInstance(a0, "KnownStackValue"), IsInstance(a1, "KnownStackValue"),
@@ -52,10 +52,14 @@ def _mk(name, gcls, fcls, value_of, lo, hi):
     c = contract(F + name, params={"self": T.Ref("GroupIndices"), "ins_stack_value": T.Ref("KnownStackValue")},
                  returns=T.Tuple(T.Set(T.Int), T.Set(T.Int)), ghost={"v": T.Abs("Visit")}, touch=["ins_stack_value"],
                  tags=["C06", "C01", "C03"])
+    # D1: `c OP field` with an order comparison is read as `field OP c` (pinned by tests/transaction_context/
+    # test_group_indices.py[test4], hence a listed finding and not a fix)
+    d1 = {"D1": lambda ins_stack_value: And(_direct(ins_stack_value, 1, gcls, fcls)[0],
+                                            IsInstance(ins_stack_value.instruction, ("Less", "LessE", "Greater", "GreaterE")))}
     ensures(c, "true_sound", lambda ins_stack_value, result, v:
-            Implies(ev(v, ins_stack_value) != 0, In(value_of(v), result[0])), tags=["C06", "C01"])
+            Implies(ev(v, ins_stack_value) != 0, In(value_of(v), result[0])), tags=["C06", "C01"], known=d1)
     ensures(c, "false_sound", lambda ins_stack_value, result, v:
-            Implies(ev(v, ins_stack_value) == 0, In(value_of(v), result[1])), tags=["C06", "C01"])
+            Implies(ev(v, ins_stack_value) == 0, In(value_of(v), result[1])), tags=["C06", "C01"], known=d1)
     ensures(c, "within_universe", lambda result: forall(T.Int, lambda i:
             Implies(In(i, result[1]), And(i >= lo, i <= hi)), sample=list(range(-1, 20))), tags=["C06"])
     def mk_exact(pos):
@@ -69,7 +73,7 @@ def _mk(name, gcls, fcls, value_of, lo, hi):
                            sample=list(range(lo, hi + 1))))
         return exact
     ensures(c, "exact_field_left", mk_exact(0), tags=["C06", "C03"])
-    ensures(c, "exact_field_right", mk_exact(1), tags=["C06", "C03"])
+    ensures(c, "exact_field_right", mk_exact(1), tags=["C06", "C03"], known=d1)
     must_fail(c, "canary", lambda ins_stack_value, result, v:
               Implies(ev(v, ins_stack_value) != 0, In(value_of(v), result[1])))
     from contracts.reify_sv import make_reifier
